@@ -761,6 +761,10 @@ CORPUS = [
     ([], [_e(["e"], "reg", data=""), _e(["z"], "dir", mode=0), _e([" "], "reg"), _e(["ü#new"], "sym", target="ü")], True),
     # symlinked directory on disk (literal model excluded; property checked on the real code)
     ([_d(["lib64"]), _s(["lib"], "lib64")], [_e(["lib"], "dir"), _e(["lib", "so"], "reg"), _e(["lib64"], "dir")], True),
+    # an ancestor that is a file with deeper components missing: ENOTDIR wins over ENOENT (kernel walk order)
+    ([_f(["a"])], [_e(["a", "c", "x"], "dir")], True),
+    ([_f(["a"])], [_e(["a", "c", "x"], "reg")], True),
+    ([_f(["a"])], [_e(["q"], "reg", key=[1, 2]), _e(["a", "c", "x"], "reg", key=[1, 2])], True),
     # root missing: merge_contents creates the offset
     (None, [_e(["a"], "dir"), _e(["a", "f"], "reg")], True),
 ]
